@@ -46,6 +46,12 @@ func (lt *LogType) UnmarshalJSON(data []byte) error {
 		return err
 	}
 
+	switch s {
+	case "SET_METADATA", "NEW_TRANSACTION", "REVERTED_TRANSACTION", "DELETE_METADATA", "INSERTED_SCHEMA":
+	default:
+		// client input (log import): an unknown type is an error, not a panic
+		return fmt.Errorf("invalid log type '%s'", s)
+	}
 	*lt = LogTypeFromString(s)
 
 	return nil
@@ -301,7 +307,7 @@ func (s *SavedMetadata) UnmarshalJSON(data []byte) error {
 	case strings.ToUpper(MetaTargetTypeTransaction):
 		id, err = strconv.ParseUint(string(x.TargetID), 10, 64)
 	default:
-		panic("unknown type")
+		return fmt.Errorf("unknown target type '%s'", x.TargetType)
 	}
 	if err != nil {
 		return err
